@@ -17,6 +17,10 @@ func c03Quote(e *emitter, r *rng, n int) {
 		"'s'", "\"d\"", "`t`", "'a\\'b'", "\"a\\\"b\"", "`a\\`b`", "'\\\\'", "\"\\\\\"", "'it\\'s \"q\" `b`'", "\"say 'hi' `b`\"", "`both ' \"`",
 		"'line \\\ncont'", "\"line \\\ncont\"", "'line \\\r\ncont'", "\"line \\\r\ncont\"", "`multi\nline`", "`multi\r\nline`", "'a/*b'", "\"a//b\"", "`a//b`",
 		"a / b", "a /* c */ / b", "'\\u0027'", "'\\x27'",
+		// constructs templ's parser does not track (the specification does): regular-expression literals,
+		// template-literal substitutions, HTML-like comments
+		"var r = /'/;", "x = /\"/g;", "m(/[`'/]/)", "y = a / b / c;", "z = (1) / 2 / 3;", "`a ${ b } c`", "`a ${ f('x') } c`", "`${ `q` }`", "`p ${ {a:1}.a } q`",
+		"<!-- ' html comment\n", "`a ${ ",  " } b`",
 	}
 	// openers leave a literal open so that the marker that follows is inside it; closers close it again
 	openers := []struct{ open, mid, close string }{
@@ -24,9 +28,14 @@ func c03Quote(e *emitter, r *rng, n int) {
 		{"'", "l1 \\\n", "'"}, {"\"", "l1 \\\n", "\""}, {"'", "l1 \\\r\n", "'"}, {"\"", "l1 \\\r\n", "\""}, {"`", "l1\n", "`"}, {"`", "l1\r\n", "`"},
 		{"'", "\\\\", "'"}, {"\"", "\\\\", "\""}, {"'", "\"`", "'"}, {"\"", "'`", "\""}, {"`", "'\"", "`"}, {"'", "/*", "'"}, {"\"", "//", "\""},
 	}
-	for i := 0; i < n; i++ {
+	// witnesses (reported on the unchanged tree): a quote inside a regular expression, a value inside ${ … }, a quote in an HTML-like comment
+	seeds := []string{"var r = /'/; var x = " + marker + ";", "var s = `a ${ " + marker + " } b`;", "var s = `a ${ f('x') } " + marker + " b`;", "var x = <!-- ' \n " + marker}
+	for i := 0; i < n+len(seeds); i++ {
 		var sb strings.Builder
-		for k := 2 + r.intn(8); k > 0; k-- {
+		if i < len(seeds) {
+			sb.WriteString(seeds[i])
+		}
+		for k := 2 + r.intn(8); k > 0 && i >= len(seeds); k-- {
 			switch r.intn(5) {
 			case 0:
 				sb.WriteString(marker) // outside any literal
